@@ -17,7 +17,23 @@ The tactics below decide guards and side conditions *semantically* from the sign
 * `epv_eos_ifs`         resolves every `if c then _ else _` of the goal whose condition is decided by the context;
 * `epv_eos_side`        one side condition of a certificate (`d ≠ 0`, `0 < b`);
 * `epv_eos_have_cert h : cert p ρ P`, `epv_eos_cert cert p ρ P`   instantiate / apply a certificate up to its side conditions;
-* `epv_eos_field_simp`, `epv_eos_field`    `field_simp` with a semantic discharger, and the closing `… ; ring`.
+* `epv_eos_field_simp`, `epv_eos_field`    `field_simp` with a semantic discharger, and the closing `… ; ring`;
+* `epv_eos_at_leaf`, `epv_eos_eq`, `epv_eos_res_eq`, `epv_eos_res_unfold`   the usual chains: unfold trees (select a vector /
+                        matrix component), resolve guards, unfold leaves / derivative definitions, field arithmetic;
+* `epv_eos_fact`        a documented fact (sign, `≠`) from the unfolded path facts of an `ok` branch, whatever their form;
+* `epv_eos_gen_dens`    names the compound non-vanishing factors of the goal's denominators (replaces literal `generalize`);
+* `epv_eos_gen_ne h`, `epv_eos_inv_entry`   `F_prime_inv · F_prime = 1`: name the determinant, clear it, unfold it again;
+* `epv_eos_unify_args`  equal quantities written differently inside `exp` / `√` / compound denominators made syntactically equal;
+* `epv_eos_scale_iff c, hc`   a comparison re-expressed in scaled units (`A' < B' ↔ A < B`, `A' = c A`, `B' = c B`).
+
+A guard the context does NOT decide (a warning branch returning the same value on both sides, the shock test when both
+sides agree) is split by `epv_eos_ifs` and both cases are continued.  Guards are tried in three stages (in the context /
+linear arithmetic / quotients cleared and products of hypotheses), first for `¬ c`, then for `c`, so the common cases cost
+one `assumption`.
+
+Still shape-dependent by construction: leaf NUMBERS (`M.L<k>.f`) — they change when a guard is added, removed or first
+evaluated at another place (hoisting a guarded call above another guarded call); proofs name the leaf in one `hev`
+statement per theorem and the `*_leaves` pins break the build instead of letting a new leaf escape.
 -/
 import EPV.Tactics
 import EPV.Robust
@@ -235,7 +251,7 @@ macro "epv_eos_cond_full" : tactic => `(tactic| first
 /-- prove a traced path condition `M.c<i> p …` or its negation from the sign / non-vanishing facts in the context,
 whatever form the code gives the comparison -/
 macro "epv_eos_cond" : tactic =>
-  `(tactic| ((try simp only [epv_cond, epv_c16]); first | epv_eos_cond_cheap | epv_eos_cond_full))
+  `(tactic| ((try simp only [epv_cond, epv_c16]) <;> first | epv_eos_cond_cheap | epv_eos_cond_full))
 
 /-- resolve every `if c then a else b` in the goal whose condition the context decides (outermost first) -/
 elab_rules : tactic | `(tactic| epv_eos_ifs) => do
@@ -254,9 +270,9 @@ elab_rules : tactic | `(tactic| epv_eos_ifs) => do
       try
         let m ← mkFreshExprMVar ty
         let tac ← match full with
-          | 2 => `(tactic| ((try simp only [epv_cond, epv_c16]); epv_eos_cond_full))
-          | 1 => `(tactic| ((try simp only [epv_cond, epv_c16]); epv_eos_cond_cheap))
-          | _ => `(tactic| ((try simp only [epv_cond, epv_c16]); epv_eos_cond_trivial))
+          | 2 => `(tactic| ((try simp only [epv_cond, epv_c16]) <;> epv_eos_cond_full))
+          | 1 => `(tactic| ((try simp only [epv_cond, epv_c16]) <;> epv_eos_cond_cheap))
+          | _ => `(tactic| ((try simp only [epv_cond, epv_c16]) <;> epv_eos_cond_trivial))
         let rest ← Tactic.run m.mvarId! (withoutRecover (evalTactic tac))
         if rest.isEmpty then
           return some (← instantiateMVars m)
@@ -409,3 +425,74 @@ macro "epv_eos_inv_entry" : tactic => `(tactic| first
 macro "epv_eos_res_unfold" : tactic =>
   `(tactic| ((try simp only [epv_c16, Matrix.of_apply, Matrix.cons_val, Fin.zero_eta, Fin.mk_one, Fin.reduceFinMk, Fin.isValue]);
              (try simp only [epv_tree]) <;> epv_eos_ifs <;> (try simp only [epv_leaf, epv_deriv])))
+
+namespace EPV.Bridge.Eos
+
+/-- arguments of `Real.exp`, `Real.log`, `Real.sqrt` and compound denominators (`_ / d`, `d⁻¹` with `d` a sum): the places
+where `ring` sees an atom and two equal quantities written differently block it -/
+def opaqueArg? (e : Expr) : Option Expr :=
+  if e.isAppOfArity ``Real.exp 1 || e.isAppOfArity ``Real.log 1 || e.isAppOfArity ``Real.sqrt 1 then some (e.getArg! 0)
+  else match realDenominator? e with
+    | some d => if isSum d then some d else none
+    | none => none
+
+end EPV.Bridge.Eos
+
+/-- make equal quantities that sit where `ring` only sees atoms (arguments of `exp` / `log` / `√`, compound denominators)
+*syntactically* equal: for every pair of such terms `x`, `y` in the goal with `x = y` provable by field arithmetic from the
+non-vanishing facts in context (`Y s / (2 (G s)) = Y / (2 G)` for a scale `s ≠ 0`), rewrite `x` to `y` -/
+elab "epv_eos_unify_args" : tactic => do
+  let mut fuel := 12
+  let mut progress := true
+  while progress && fuel > 0 do
+    progress := false
+    fuel := fuel - 1
+    if (← getUnsolvedGoals).isEmpty then break
+    let tgt ← withMainContext do instantiateMVars (← getMainTarget)
+    let args := (EPV.Bridge.Eos.collect (fun e => (EPV.Bridge.Eos.opaqueArg? e).isSome) tgt).filterMap
+      EPV.Bridge.Eos.opaqueArg?
+    let mut ts : Array Expr := #[]
+    for a in args do
+      if !a.hasLooseBVars && !ts.contains a then ts := ts.push a
+    for i in [0:ts.size] do
+      if progress then break
+      for j in [0:ts.size] do
+        if progress then break
+        if i == j then continue
+        let x := ts[i]!
+        let y := ts[j]!
+        -- rewrite the larger term to the smaller one
+        if x.approxDepth < y.approxDepth then continue
+        if x.approxDepth == y.approxDepth && i < j then continue
+        let sx ← withMainContext do Term.exprToSyntax x
+        let sy ← withMainContext do Term.exprToSyntax y
+        try
+          withoutRecover (evalTactic (← `(tactic|
+            (have epv_u : $sx = $sy := by
+               first | ring1 | (field_simp; done) | (field_simp; ring1) | (epv_eos_field_simp; ring1)
+             rw [epv_u] <;> clear epv_u))))
+          progress := true
+        catch _ => pure ()
+
+/-- goal `A' < B' ↔ A < B` (or `≤`) where `A' = c * A`, `B' = c * B` by field arithmetic and `hc : 0 < c`: a comparison
+re-expressed in scaled units, however the code writes the two sides -/
+elab "epv_eos_scale_iff " c:term ", " hc:term : tactic => withMainContext do
+  let tgt ← instantiateMVars (← getMainTarget)
+  unless tgt.isAppOfArity ``Iff 2 do throwError "epv_eos_scale_iff: not an iff"
+  let l := tgt.getArg! 0
+  let r := tgt.getArg! 1
+  let isLt := l.isAppOfArity ``LT.lt 4 && r.isAppOfArity ``LT.lt 4
+  let isLe := l.isAppOfArity ``LE.le 4 && r.isAppOfArity ``LE.le 4
+  unless isLt || isLe do throwError "epv_eos_scale_iff: not a comparison of the same kind on both sides"
+  let a' ← Term.exprToSyntax (l.getArg! 2)
+  let b' ← Term.exprToSyntax (l.getArg! 3)
+  let a ← Term.exprToSyntax (r.getArg! 2)
+  let b ← Term.exprToSyntax (r.getArg! 3)
+  evalTactic (← `(tactic|
+    (have epv_ha : $a' = $c * $a := by first | ring1 | (field_simp; done) | (field_simp; ring1)
+     have epv_hb : $b' = $c * $b := by first | ring1 | (field_simp; done) | (field_simp; ring1)
+     rw [epv_ha, epv_hb])))
+  if isLt then
+    evalTactic (← `(tactic| exact ⟨fun h => lt_of_mul_lt_mul_left h (le_of_lt $hc), fun h => mul_lt_mul_of_pos_left h $hc⟩))
+  else
+    evalTactic (← `(tactic| exact ⟨fun h => le_of_mul_le_mul_left h $hc, fun h => mul_le_mul_of_nonneg_left h (le_of_lt $hc)⟩))
